@@ -22,6 +22,14 @@ Definition pc (f r : list Z) (l : list (list Z * list Z)) : list (list Z * list 
 (* a block built from an integer, then further integers offered to it, then both iterations with count n *)
 Inductive bobs := BErr | BOk (st : Z) (acc : list bool) (fwd rev : iobs).
 
+(* a block (Start, positions) reversed: the result (Start, words) and the receiver re-read; Equal(receiver, result) and
+   Equal(receiver, receiver rebuilt); result.B1024.GetNAsI16(n); x offered to the RESULT, then the receiver re-read; y offered to
+   the RECEIVER, then the result re-read; us offered to the result; the result's forward / reverse iteration with count n *)
+Inductive robs :=
+| RPanic
+| ROk (rst : Z) (rbits recv1 : bitmap) (eq_rr eq_self : bool) (ri16 : iobs)
+      (accx : bool) (recv2 : bitmap) (accy : bool) (rbits3 : bitmap) (acc : list bool) (fwd rev : iobs).
+
 Inductive case :=
   (* b.Marshal() = bytes; NewBit1024().Unmarshal(bytes) = r *)
 | CMarshal (b : bitmap) (bytes : list Z) (r : ures)
@@ -34,7 +42,12 @@ Inductive case :=
   (* BigU32s of blocks (Start, positions): per block GetNAsI64(1024) / RGetNAsI64(1024); the list's GetNAsI64(n) / RGetNAsI64(n) *)
 | CBigs (bl : list (Z * list Z)) (n : Z) (per : list (list Z * list Z)) (fwd rev : iobs)
   (* U32BitTips likewise *)
-| CTips (bl : list (Z * list Z)) (n : Z) (per : list (list Z * list Z)) (fwd rev : iobs).
+| CTips (bl : list (Z * list Z)) (n : Z) (per : list (list Z * list Z)) (fwd rev : iobs)
+  (* BigU32.Reverse (tip = false) / U32BitTip.Reverse (tip = true) of the block (st, positions ms) *)
+| CRev (tip : bool) (st : Z) (ms : list Z) (x y : Z) (us : list Z) (n : Z) (o : robs)
+  (* BigU32s.Reverse / U32BitTips.Reverse: the result list (Start, words) and, after every element of the result was
+     modified (a position set, Start changed), the receivers re-read *)
+| CRevs (tip : bool) (bl : list (Z * list Z)) (res recv : list (Z * list Z)).
 
 (* ------------------------------------------------------------------ decidable equalities *)
 Definition iobs_eqb (a b : iobs) : bool :=
@@ -50,6 +63,16 @@ Definition bobs_eqb (a b : bobs) : bool :=
   | BOk s a f r, BOk s' a' f' r' => (s =? s') && list_eqb Bool.eqb a a' && iobs_eqb f f' && iobs_eqb r r'
   | _, _ => false
   end.
+Definition robs_eqb (a b : robs) : bool :=
+  match a, b with
+  | RPanic, RPanic => true
+  | ROk s rb r1 e1 e2 i ax r2 ay rb3 ac f r, ROk s' rb' r1' e1' e2' i' ax' r2' ay' rb3' ac' f' r' =>
+    (s =? s') && zlist_eqb rb rb' && zlist_eqb r1 r1' && Bool.eqb e1 e1' && Bool.eqb e2 e2' && iobs_eqb i i'
+    && Bool.eqb ax ax' && zlist_eqb r2 r2' && Bool.eqb ay ay' && zlist_eqb rb3 rb3' && list_eqb Bool.eqb ac ac'
+    && iobs_eqb f f' && iobs_eqb r r'
+  | _, _ => false
+  end.
+Definition zpair_eqb (a b : Z * list Z) : bool := (fst a =? fst b) && zlist_eqb (snd a) (snd b).
 Definition pair_eqb (a b : list Z * list Z) : bool := zlist_eqb (fst a) (fst b) && zlist_eqb (snd a) (snd b).
 
 Lemma iobs_eqb_eq a b : iobs_eqb a b = true -> a = b.
@@ -72,6 +95,23 @@ Proof.
   apply Z.eqb_eq in H1. apply (list_eqb_eq Bool.eqb bool_eqb_eq) in H2.
   apply iobs_eqb_eq in H3. apply iobs_eqb_eq in H4. now subst.
 Qed.
+Lemma robs_eqb_eq a b : robs_eqb a b = true -> a = b.
+Proof.
+  destruct a, b; cbn [robs_eqb]; try discriminate; auto. intros H.
+  repeat match goal with H : _ && _ = true |- _ => apply andb_prop in H; destruct H as [H ?] end.
+  repeat match goal with
+  | H : (_ =? _) = true |- _ => apply Z.eqb_eq in H
+  | H : zlist_eqb _ _ = true |- _ => apply zlist_eqb_eq in H
+  | H : Bool.eqb _ _ = true |- _ => apply bool_eqb_eq in H
+  | H : iobs_eqb _ _ = true |- _ => apply iobs_eqb_eq in H
+  | H : list_eqb Bool.eqb _ _ = true |- _ => apply (list_eqb_eq Bool.eqb bool_eqb_eq) in H
+  end. subst. reflexivity.
+Qed.
+Lemma zpair_eqb_eq a b : zpair_eqb a b = true -> a = b.
+Proof.
+  destruct a as [x y], b as [x' y']. unfold zpair_eqb. cbn [fst snd]. intros H.
+  apply andb_prop in H as [H1 H2]. apply Z.eqb_eq in H1. apply zlist_eqb_eq in H2. now subst.
+Qed.
 Lemma pair_eqb_eq a b : pair_eqb a b = true -> a = b.
 Proof.
   destruct a as [x y], b as [x' y']. unfold pair_eqb. cbn [fst snd]. intros H.
@@ -93,6 +133,20 @@ Definition model_block_run (mk : option block) (st : block -> Z -> option block)
   | None => BErr
   | Some b => let '(acc, bf) := sets st b us in BOk (start b) acc (gn false bf n) (gn true bf n)
   end.
+
+(* the run behind CRev in the model, for one block type (its Set method and its GetN) *)
+Definition reverse_run (setf : block -> Z -> option block) (gn : bool -> block -> Z -> iobs)
+           (st : Z) (ms : list Z) (x y : Z) (us : list Z) (n : Z) : robs :=
+  let b0 := mk_block st ms in
+  let r0 := block_reverse b0 in
+  let '(ax, r1) := sets setf r0 [x] in
+  let '(ay, b1) := sets setf b0 [y] in
+  let '(acc, rf) := sets setf r1 us in
+  ROk (start r0) (bits r0) (bits b0) (bequal (bits b0) (bits r0)) (bequal (bits b0) (bits (mk_block st ms)))
+      (getn false idz (bits r0) 0 n)
+      (hd false ax) (bits b0) (hd false ay) (bits r1) acc (gn false rf n) (gn true rf n).
+Definition model_reverse_run (tip : bool) (st : Z) (ms : list Z) (x y : Z) (us : list Z) (n : Z) : robs :=
+  if tip then reverse_run tip_set tip_getn st ms x y us n else reverse_run big_set big_getn st ms x y us n.
 
 Definition case_matches (c : case) : bool :=
   match c with
@@ -117,6 +171,14 @@ Definition case_matches (c : case) : bool :=
       forallb tipblk_ok bl &&
       list_eqb pair_eqb per (map (fun b => (tip_iter false b 1024, tip_iter true b 1024)) blocks) &&
       iobs_eqb fwd (tips_getn false blocks n) && iobs_eqb rev (tips_getn true blocks n)
+  | CRev tip st ms x y us n o =>
+      (if tip then (0 <=? st) && (st <=? MAXTIP) else in_u32 st) && forallb pos_ok ms &&
+      robs_eqb o (model_reverse_run tip st ms x y us n)
+  | CRevs tip bl res recv =>
+      let blocks := map (fun x => mk_block (fst x) (snd x)) bl in
+      forallb blk_ok bl &&
+      list_eqb zpair_eqb res (map (fun b => (start b, bits b)) (blocks_reverse blocks)) &&
+      list_eqb zpair_eqb recv (map (fun b => (start b, bits b)) blocks)
   end.
 
 (* ------------------------------------------------------------------ holds: the property's clauses *)
@@ -159,6 +221,44 @@ Definition block_holds (same : Z -> Z -> bool) (v : Z) (us : list Z) (n : Z) (o 
         end)
   end.
 
+(* the positions 0..1023 that are not in ms: what the reversed block must contain *)
+Definition complement (ms : list Z) : list Z := filter (fun j => negb (memz j ms)) z1024.
+Definition members_are (b : bitmap) (p : Z -> bool) : bool := forallb (fun j => Bool.eqb (member b j) (p j)) z1024.
+
+Definition rev_holds (same : Z -> Z -> bool) (st : Z) (ms : list Z) (x y : Z) (us : list Z) (n : Z) (o : robs) : bool :=
+  match o with
+  | RPanic => false
+  | ROk rst rbits recv1 eq_rr eq_self ri16 accx recv2 accy rbits3 acc fwd rev =>
+    (rst =? st)                                                             (* the same block *)
+    && members_are rbits (fun j => negb (memz j ms))                        (* the complement within the block *)
+    && members_are recv1 (fun j => memz j ms)                               (* the receiver is unchanged *)
+    && negb eq_rr && eq_self                                                (* Equal tells them apart *)
+    && members_are recv2 (fun j => memz j ms)                               (* ... also after the result was modified *)
+    && Bool.eqb accx (same st x) && Bool.eqb accy (same st y)               (* both accept exactly their block's integers *)
+    && members_are rbits3 (fun j => negb (memz j ms) || (accx && (j =? x mod 1024)))   (* the result does not follow the receiver *)
+    && list_eqb Bool.eqb acc (map (same st) us)
+    && ((n <? 0) ||
+        match ri16, fwd, rev with
+        | IList i, IList f, IList r =>
+          let ss := map (fun j => j + 1024 * st) (complement ms) ++ filter (same st) (x :: us) in
+          first_n_of Z.ltb (complement ms) n i
+          && first_n_of Z.ltb ss n f && first_n_of Z.gtb ss n r
+        | _, _, _ => false
+        end)
+  end.
+Definition same_start_i64 (st u : Z) : bool := (0 <=? u) && (u <? MAXI64) && (u / 1024 =? st).
+Definition same_start_u32 (st u : Z) : bool := u / 1024 =? st.
+
+Fixpoint revs_holds (bl res recv : list (Z * list Z)) : bool :=
+  match bl, res, recv with
+  | [], [], [] => true
+  | (st, ms) :: bl', (rst, rbits) :: res', (cst, cbits) :: recv' =>
+    (rst =? st) && members_are rbits (fun j => negb (memz j ms))
+    && (cst =? st) && members_are cbits (fun j => memz j ms)
+    && revs_holds bl' res' recv'
+  | _, _, _ => false
+  end.
+
 Definition case_holds (c : case) : bool :=
   match c with
   | CMarshal b bytes r =>
@@ -183,4 +283,6 @@ Definition case_holds (c : case) : bool :=
       (n <? 0) ||
       (iobs_eqb fw (IList (take n (concat (map fst per))))
        && (iobs_eqb rv (IList (take n (concat (map snd per)))) || iobs_eqb rv (IList (take n (concat (rev (map snd per)))))))
+  | CRev tip st ms x y us n o => rev_holds (if tip then same_start_u32 else same_start_i64) st ms x y us n o
+  | CRevs tip bl res recv => revs_holds bl res recv
   end.
